@@ -84,6 +84,37 @@ pub fn run(p: &Params) -> Run {
             }
         }
     }
+    // INT arguments at the 64-bit extremes: the exact sum may fit while a partial sum in SOME order does not. The code adds
+    // with `checked_add` in arrival order, so such an input errors in one order and answers in another (finding D71) — known
+    // only in exactly that form: one order reports the overflow error, the other prints the exact sum.
+    for _ in 0..p.n(120, 3000) {
+        let pool: &[i64] = &[i64::MAX, i64::MAX - 1, 1, -1, 2, -2, i64::MIN, i64::MIN + 1, 0, 4611686018427387904, -4611686018427387904];
+        let vals: Vec<i64> = (0..2 + rng.below(4)).map(|_| *rng.pick(pool)).collect();
+        let exact: i128 = vals.iter().map(|v| *v as i128).sum();
+        let fits = exact >= i64::MIN as i128 && exact <= i64::MAX as i128;
+        let q = *rng.pick(&["SELECT SUM(v) FROM t", "SELECT k, SUM(v) FROM t GROUP BY k", "SELECT COUNT(*), SUM(v) FROM t"]);
+        let prepared = match prepare(C04_DEF, q) { Ok(p) => p, Err(_) => continue };
+        let lines: Vec<String> = vals.iter().map(|v| format!("a;{};1;;;;;", v)).collect();
+        let mut perm = lines.clone();
+        perm.reverse();
+        if rng.chance(1, 2) { rng.shuffle(&mut perm); }
+        let a = run_files(&prepared, &[join_lines(&lines)]);
+        let b = run_files(&prepared, &[join_lines(&perm)]);
+        run.oracle_checks += 1;
+        run.count("extreme-int-sums");
+        let desc = format!("query={} input={:?} permuted={:?}", q, lines, perm);
+        if a.status == "panic" || b.status == "panic" { run.fail(desc, "panic:extreme-sum", "panicked".to_owned()); continue; }
+        if a.status == b.status && a.records() == b.records() {
+            // both orders agree; a value must be the exact sum
+            if a.status == "ok" && fits && !a.records().iter().any(|r| r.contains(&exact.to_string())) {
+                run.fail(desc, "sum-not-exact", format!("printed {:?}, the exact sum is {}", a.records(), exact));
+            }
+            continue;
+        }
+        let (okr, err) = if a.status == "ok" { (&a, &b) } else { (&b, &a) };
+        let d71 = fits && okr.status == "ok" && err.status.starts_with("err:") && okr.records().iter().any(|r| r.contains(&exact.to_string()));
+        run.fail(desc, if d71 { "D71:int-sum-order-dependent-overflow" } else { "permutation-changes-result" }, format!("{} {:?} vs {} {:?} (exact sum {})", a.status, a.records(), b.status, b.records(), exact));
+    }
     // split: the result over a concatenation is the key-wise combination of the results over the parts
     let m = p.n(800, 30_000);
     for _ in 0..m {
